@@ -102,6 +102,8 @@ class Body:
         self.crate = crate
         self.d = d
         self.def_ = d["def"]
+        self.uid = d.get("uid") or d["def"]
+        self.parent_uid = d.get("parent_uid")
         self.path = strip_generics(self.def_)
         self.kind = d["kind"]
         self.name = d.get("name") or self.path.rsplit("::", 1)[-1]
@@ -287,11 +289,31 @@ class Body:
         return "<body %s>" % self.def_
 
 
+class BodyIndex(dict):
+    """bodies keyed by (crate, uid); lookups by (crate, def path) fall back to the def-path index (first match if ambiguous)"""
+
+    def __init__(self):
+        super().__init__()
+        self.by_def = {}
+
+    def add(self, key, b):
+        self[(key, b.uid)] = b
+        self.by_def.setdefault((key, b.def_), []).append(b)
+
+    def get(self, k, default=None):
+        if k in self:
+            return self[k]
+        l = self.by_def.get(k)
+        if l:
+            return l[0]
+        return default
+
+
 class Facts:
     def __init__(self, directory):
         self.dir = directory
         self.crates = {}
-        self.bodies = {}
+        self.bodies = BodyIndex()
         self.by_path = {}
         self.adts = {}
         self.impls = []
@@ -307,8 +329,10 @@ class Facts:
             self.crates[key] = c
             for bd in c["bodies"]:
                 b = Body(key, bd)
-                self.bodies[(key, b.def_)] = b
+                self.bodies.add(key, b)
                 self.by_path.setdefault(b.path, []).append(b)
+                self.by_uid = getattr(self, "by_uid", {})
+                self.by_uid[b.uid] = b
             for a in c["adts"]:
                 a["crate"] = key
                 self.adts[a["def"]] = a
@@ -346,7 +370,8 @@ class Facts:
         return out
 
     def closures_of(self, body):
-        return [b for b in self.bodies.values() if b.kind == "Closure" and b.parent == body.def_ and b.crate == body.crate]
+        return [b for b in self.bodies.values() if b.kind == "Closure" and b.crate == body.crate and
+                (b.parent_uid == body.uid if b.parent_uid else b.parent == body.def_)]
 
     def closure(self, crate, def_):
         return self.bodies.get((crate, def_))
